@@ -17,13 +17,54 @@ package main
 //               when the function returns its receiver.
 //   slices      []uint is a Lean `List Nat` (a value): literals, make([]uint, n), append(s, x…) = s ++ [x…],
 //               append(s, r...) = s ++ r, len; `for _, x := range []uint{e1, …}` (no break/continue) is
-//               unrolled after evaluating the elements; indexing of slices is NOT supported
+//               unrolled after evaluating the elements.  Also []int (`List Int`) and [][]uint
+//               (`List (List Nat)`), make([]T, n, n) (n zero values; capacity = length only)
+//   indexing    `s[i]` of a slice and `s[i] = e`, `s[i]++`, `s[i][j] = e` (List.getD / List.set) make the
+//               function PARTIAL: Go panics when an index is out of range (or a signed make length is
+//               negative).  The function is then translated with result type `Option …`; every statement
+//               is preceded by the guards of the index expressions it evaluates (`0 ≤ i ∧ i < len` for an
+//               int index, `i < len` for a uint index, evaluated in the state before the statement, as Go
+//               evaluates operands before assigning) and yields `none` when a guard fails (inside a loop:
+//               the loop's return slot gets `some none`).  The `getD` default is never reached under its
+//               guard.  Refused: an indexing expression on the right of && / || (short-circuit), in a
+//               loop condition, a switch case, a declaration, a function literal; calls of partial
+//               functions other than `return self(…)`.  Which panic occurs first is not distinguished;
+//               running out of memory in make is not modelled.  Slices are values; so that Go's reference
+//               semantics cannot be observed, a function is refused (aliasCheck) when a slice assigned
+//               through an index is a parameter, does not come from `make` (local) / is not a receiver
+//               field, is copied (`u := s`) or passed to a function other than len, when a slice stored
+//               through an index is not a fresh `make`, or when a row `t[i]` is copied into a variable.
+//   structs     a struct of the package all of whose fields are words/ints/bools/slices is the tuple of
+//               its fields in declaration order; `&T{f: e, …}` / `T{…}` is that tuple with zero values for
+//               omitted fields (a pointer to a fresh value is the value); a receiver field of type
+//               bool/int/slice is a parameter of that type
+//   void methods  a method without results returns the final values of the receiver fields it assigns
+//               (sorted by mangled name); assumes the receiver is reachable only through its own name
+//   range       `for i := range s`, `for _, x := range s`, `for i, x := range s` over a slice variable or
+//               field s: `rngN_len := len(s); for i := 0; i < rngN_len; i++ { x := s[i]; … }` (Go evaluates
+//               the range expression once; refused when the body assigns the key, or — with a value
+//               variable — assigns s)
+//   continue    `continue` (own loop): the rest of the body is dropped, the post statement runs.
+//               `continue L` inside a loop nested directly in the body of the loop labelled L:
+//               `cntN := false; inner loop with {cntN = true; break} for continue L; if cntN { continue }`
+//   qualified calls  `pkg.F(…)` of an already translated package-level function; the results of a callee
+//               with recursion fuel are bound by projections (`let r := f loopFuel x; let a := r.1; …`), not
+//               by a tuple pattern, so that unfolding the caller never forces the evaluation of the callee
+//   suffix heads  in a suffix translation (suffixList) a slice bound in the skipped head by
+//               `xs, … := f(…)` with f translated is a parameter `(xs : List …)` of the core
+//   nil objects `var e *T` (no value): e is a local object whose nil value word is the uninterpreted
+//               parameter `nil_T` (so nothing can be proved about a returned nil)
+//   method chains  `x.M(a).P()` as a condition, x a local object: `method_P (method_M x a)` with an
+//               uninterpreted `method_P : Nat → Bool`
+//   division    `/` and `%` are Lean's total operations (x / 0 = 0): a Go division by zero (panic) is NOT
+//               modelled, also not in partial functions
 //   switch      `switch x { case a, b: … }` on a variable (no break/fallthrough)
-//   loops       may be nested; `return` inside a loop only at nesting depth one; `break` belongs to the
-//               innermost loop
+//   loops       may be nested; `return` inside nested loops: every loop has its own return slot, filled
+//               from the slot of the inner loop; `break` belongs to the innermost loop
 //   recursion   a function that calls itself gets a recursion fuel as first argument:
 //               `go_f : Nat → args → res`, `go_f 0 _ = default`, the body calls `self := go_f recFuel`;
-//               callers pass `loopFuel`
+//               callers pass `loopFuel`; a method calling itself on its own receiver likewise, with the
+//               receiver fields it reads as fixed parameters in front of the fuel
 //   local objects  `x := a.Copy()`, `x := a.field.One()` (a call rooted at an object parameter) makes x a
 //               local object represented by its value word; `x.M(args)` as an expression is
 //               `method_M x args`, as a statement `x := method_M x args`, with `method_M` an uninterpreted
@@ -69,6 +110,13 @@ type tr struct {
 	rangeN   *int              // counter of unrolled `range` statements (shared by sub-translators)
 	methods  map[string]string // (unused)
 	localObj map[string]bool   // local variables holding an object (`x := a.Copy()`), represented by the value word
+	partial     bool        // the function may panic (slice indexing, make): its result type is `Option …`, a panic is `none`
+	needPartial bool        // set when a construct that may panic is met (the function is then translated again with partial = true)
+	guards      []string    // conditions under which the expressions of the current statement do not panic
+	isLoopBody  bool        // translating the body of a loop (results = loop state)
+	canContinue bool        // `continue` of the loop being translated is allowed
+	contPost    []ast.Stmt  // its post statement
+	loopLabel   string      // label of the `for` statement about to be translated
 }
 
 func (t *tr) fail(format string, a ...interface{}) string {
@@ -128,6 +176,14 @@ func (t *tr) selector(e ast.Expr) (string, bool) {
 	if !t.extraSet[m] {
 		t.extraSet[m] = true
 		t.extra = append(t.extra, m)
+		// a field whose declared type is not a word (bool, int, slice) is a parameter of that type
+		if ft := t.declType(e); ft != "uint" && basicTy(ft) && ft != "error" {
+			if t.extraTy == nil {
+				t.extraTy = map[string]string{}
+			}
+			t.extraTy[m] = leanType(ft)
+			t.types[m] = ft
+		}
 	}
 	return m, true
 }
@@ -164,6 +220,9 @@ func (t *tr) typeOf(e ast.Expr) string {
 	case *ast.Ident:
 		if ty, ok := t.types[v.Name]; ok {
 			return ty
+		}
+		if v.Name == "true" || v.Name == "false" {
+			return "bool"
 		}
 		return "uint"
 	case *ast.BasicLit:
@@ -217,6 +276,11 @@ func (t *tr) typeOf(e ast.Expr) string {
 				return ty
 			}
 		}
+		if sel, ok := v.Fun.(*ast.SelectorExpr); ok && isPkgName(rootIdent(sel)) {
+			if ty, ok := t.types["ret:"+src(sel)]; ok {
+				return ty
+			}
+		}
 		// call of a call (closure application in orders.go) yields int
 		if _, ok := v.Fun.(*ast.CallExpr); ok {
 			return "int"
@@ -228,14 +292,20 @@ func (t *tr) typeOf(e ast.Expr) string {
 		}
 		return "uint"
 	case *ast.IndexExpr:
+		if xt := t.typeOf(v.X); isSliceTy(xt) {
+			return elemTy(xt)
+		}
 		return "uint"
 	case *ast.SelectorExpr:
 		if src(v) == "bits.UintSize" {
 			return "untyped"
 		}
+		if ft := t.declType(v); basicTy(ft) {
+			return ft
+		}
 		return "uint"
 	case *ast.CompositeLit:
-		if ty := src(v.Type); ty == "[]uint" {
+		if ty := src(v.Type); isSliceTy(ty) {
 			return ty
 		}
 		return "[2]uint"
@@ -269,6 +339,9 @@ func (t *tr) expr(e ast.Expr) string {
 		}
 		return t.fail("selector %s", src(v))
 	case *ast.IndexExpr:
+		if isSliceTy(t.typeOf(v.X)) {
+			return t.sliceRead(v)
+		}
 		if bl, ok := v.Index.(*ast.BasicLit); ok {
 			if bl.Value == "0" {
 				return "(" + t.expr(v.X) + ").1"
@@ -281,6 +354,9 @@ func (t *tr) expr(e ast.Expr) string {
 	case *ast.CompositeLit:
 		if src(v.Type) == "[2]uint" && len(v.Elts) == 2 {
 			return "(" + t.expr(v.Elts[0]) + ", " + t.expr(v.Elts[1]) + ")"
+		}
+		if fs, ok := t.structTuple(src(v.Type)); ok {
+			return t.structLit(v, fs)
 		}
 		if src(v.Type) == "[]uint" {
 			var es []string
@@ -299,6 +375,13 @@ func (t *tr) expr(e ast.Expr) string {
 			return "(!" + t.boolExpr(v.X) + ")"
 		case token.SUB:
 			return "(-" + t.expr(v.X) + ")"
+		case token.AND:
+			// `&T{…}`: a pointer to a fresh struct value is the value (no aliasing is possible in the subset)
+			if cl, ok := v.X.(*ast.CompositeLit); ok {
+				if fs, ok := t.structTuple(src(cl.Type)); ok {
+					return t.structLit(cl, fs)
+				}
+			}
 		}
 		return t.fail("unary %s", src(v))
 	case *ast.BinaryExpr:
@@ -397,18 +480,22 @@ func (t *tr) expr(e ast.Expr) string {
 			}
 			return t.fail("append %s", src(v))
 		case "make":
+			if mk, ok := t.makeSlice(v); ok {
+				return mk
+			}
 			if len(v.Args) == 2 && src(v.Args[0]) == "[]uint" {
 				if bl, ok := v.Args[1].(*ast.BasicLit); ok && bl.Value == "0" {
 					return "([] : List Nat)"
 				}
 				if t.typeOf(v.Args[1]) == "int" {
+					t.addGuard("(0 ≤ (" + t.argExpr(v.Args[1]) + " : Int))")
 					return "(List.replicate (Int.toNat " + t.argExpr(v.Args[1]) + ") (0 : Nat))"
 				}
 				return "(List.replicate " + t.argExpr(v.Args[1]) + " (0 : Nat))"
 			}
 			return t.fail("make %s", src(v))
 		case "len":
-			if len(v.Args) == 1 && t.typeOf(v.Args[0]) == "[]uint" {
+			if len(v.Args) == 1 && isSliceTy(t.typeOf(v.Args[0])) {
 				return "(Int.ofNat (List.length " + t.argExpr(v.Args[0]) + "))"
 			}
 			return t.fail("len %s", src(v))
@@ -447,6 +534,26 @@ func (t *tr) expr(e ast.Expr) string {
 						}
 					}
 				}
+			}
+		}
+		if sel, ok := v.Fun.(*ast.SelectorExpr); ok && t.selfName != "" && t.recvName != "" && sel.Sel.Name == t.selfName {
+			// a method calling itself on its own receiver
+			if id, ok := sel.X.(*ast.Ident); ok && id.Name == t.recvName {
+				var args []string
+				for _, a := range v.Args {
+					args = append(args, t.argExpr(a))
+				}
+				return "(self " + strings.Join(args, " ") + ")"
+			}
+		}
+		if sel, ok := v.Fun.(*ast.SelectorExpr); ok && isPkgName(rootIdent(sel)) {
+			// package-qualified call of a translated function
+			if ln, ok := t.known[src(sel)]; ok {
+				var args []string
+				for _, a := range v.Args {
+					args = append(args, t.argExpr(a))
+				}
+				return "(" + ln + " " + strings.Join(args, " ") + ")"
 			}
 		}
 		if m, recv, ok := t.localMethod(v); ok {
@@ -556,6 +663,12 @@ func (t *tr) boolExpr(e ast.Expr) string {
 	switch v := e.(type) {
 	case *ast.Ident:
 		return v.Name
+	case *ast.SelectorExpr:
+		if t.declType(v) == "bool" {
+			if m, ok := t.selector(v); ok {
+				return m
+			}
+		}
 	case *ast.ParenExpr:
 		return "(" + t.boolExpr(v.X) + ")"
 	case *ast.UnaryExpr:
@@ -573,7 +686,30 @@ func (t *tr) cond(e ast.Expr) string {
 		return "(" + t.cond(v.X) + ")"
 	case *ast.Ident:
 		return "(" + v.Name + " = true)"
+	case *ast.SelectorExpr:
+		if t.declType(v) == "bool" {
+			if m, ok := t.selector(v); ok {
+				return "(" + m + " = true)"
+			}
+		}
 	case *ast.CallExpr:
+		// a boolean observation of the result of a method of a local object (`e.Pow(k).IsOne()`):
+		// an uninterpreted function `method_IsOne : Nat → Bool` of the resulting object's value
+		if sel, ok := v.Fun.(*ast.SelectorExpr); ok && len(v.Args) == 0 {
+			if inner, ok := sel.X.(*ast.CallExpr); ok {
+				if _, _, ok := t.localMethod(inner); ok {
+					name := "method_" + sel.Sel.Name
+					if !t.extraSet[name] {
+						t.extraSet[name] = true
+						t.extra = append(t.extra, name)
+						t.extraTy[name] = "Nat → Bool"
+					} else if t.extraTy[name] != "Nat → Bool" {
+						return t.fail("method %s used at different types", name)
+					}
+					return "(" + name + " " + t.argExpr(inner) + " = true)"
+				}
+			}
+		}
 		// a boolean observation of a parameter object (`bb.IsZero()`): an uninterpreted Bool parameter
 		if len(v.Args) == 0 {
 			if m, ok := t.selectorTyped(v, "", "Bool"); ok {
@@ -586,10 +722,17 @@ func (t *tr) cond(e ast.Expr) string {
 		}
 	case *ast.BinaryExpr:
 		switch v.Op {
-		case token.LAND:
-			return "(" + t.cond(v.X) + " ∧ " + t.cond(v.Y) + ")"
-		case token.LOR:
-			return "(" + t.cond(v.X) + " ∨ " + t.cond(v.Y) + ")"
+		case token.LAND, token.LOR:
+			x := t.cond(v.X)
+			n := len(t.guards)
+			y := t.cond(v.Y)
+			if len(t.guards) > n {
+				return t.fail("expression that may panic on the right of && / ||")
+			}
+			if v.Op == token.LAND {
+				return "(" + x + " ∧ " + y + ")"
+			}
+			return "(" + x + " ∨ " + y + ")"
 		case token.EQL, token.NEQ, token.LSS, token.GTR, token.LEQ, token.GEQ:
 			op := map[token.Token]string{token.EQL: "=", token.NEQ: "≠", token.LSS: "<", token.GTR: ">", token.LEQ: "≤", token.GEQ: "≥"}[v.Op]
 			// pointer tests of a table/field of a parameter: an uninterpreted Bool parameter
@@ -631,6 +774,10 @@ func leanType(goType string) string {
 		return "((Nat × Nat) → (Nat × Nat) → Int)"
 	case "[]uint":
 		return "(List Nat)"
+	case "[]int":
+		return "(List Int)"
+	case "[][]uint":
+		return "(List (List Nat))"
 	}
 	return "Nat"
 }
@@ -661,6 +808,9 @@ func (t *tr) funcLit(f *ast.FuncLit) string {
 	if sub.failed != "" && t.failed == "" {
 		t.failed = sub.failed
 	}
+	if sub.needPartial || len(sub.guards) > 0 {
+		t.fail("function literal that may panic")
+	}
 	return "(fun " + strings.Join(ps, " ") + " => " + body + ")"
 }
 
@@ -688,7 +838,44 @@ func (t *tr) funcBody(ft *ast.FuncType, body *ast.BlockStmt) string {
 			}
 		}
 	}
+	if ft.Results == nil && t.recvName != "" {
+		// a method without results: its result is the final value of the receiver fields it assigns
+		t.results = t.assignedSorted()
+	}
 	return strings.Join(pre, "") + t.stmts(body.List, nil)
+}
+
+func (t *tr) assignedSorted() []string {
+	var as []string
+	for a := range t.assigned {
+		as = append(as, a)
+	}
+	sort.Strings(as)
+	return as
+}
+
+// the value a function (not a loop body) returns: wrapped in `some` when the function may panic
+func (t *tr) final(v string) string {
+	if t.partial && !t.isLoopBody {
+		return "some " + v
+	}
+	return v
+}
+
+// `return f(args)` with f a function that may panic (here: the function itself)
+func (t *tr) partialTailCall(v *ast.ReturnStmt) (string, bool) {
+	if !t.partial || t.selfName == "" || len(v.Results) != 1 {
+		return "", false
+	}
+	c, ok := v.Results[0].(*ast.CallExpr)
+	if !ok {
+		return "", false
+	}
+	s := t.expr(c)
+	if strings.HasPrefix(s, "(self ") {
+		return s, true
+	}
+	return "", false
 }
 
 func (t *tr) retTuple(vals []string) string {
@@ -704,18 +891,24 @@ func (t *tr) stmts(list []ast.Stmt, k []ast.Stmt) string {
 		if k == nil {
 			// falling off the end: return the named results
 			if len(t.results) > 0 {
-				return t.retTuple(t.results)
+				return t.final(t.retTuple(t.results))
 			}
 			return t.fail("missing return")
 		}
 		return t.stmts(k, nil)
 	}
 	s, rest := list[0], list[1:]
+	if len(t.guards) > 0 {
+		return t.fail("pending guards at a statement boundary")
+	}
 	cont := func(extra []ast.Stmt) []ast.Stmt { return append(append([]ast.Stmt{}, extra...), append(append([]ast.Stmt{}, rest...), k...)...) }
 	switch v := s.(type) {
 	case *ast.ReturnStmt:
 		if t.retVar != "" {
 			// early return from inside a loop: store the value, leave the loop
+			if tc, ok := t.partialTailCall(v); ok {
+				return t.wrapGuards(t.takeGuards(), "let "+t.retVar+" : Option ("+t.retTy+") := some "+tc+"; "+t.retTuple(t.results))
+			}
 			var vals []string
 			for _, r := range v.Results {
 				vals = append(vals, t.expr(r))
@@ -723,10 +916,17 @@ func (t *tr) stmts(list []ast.Stmt, k []ast.Stmt) string {
 			if len(v.Results) == 0 {
 				vals = t.fnResults
 			}
-			return "let " + t.retVar + " : Option (" + t.retTy + ") := some " + t.retTuple(vals) + "; " + t.retTuple(t.results)
+			rv := t.retTuple(vals)
+			if t.partial {
+				rv = "(some " + rv + ")"
+			}
+			return t.wrapGuards(t.takeGuards(), "let "+t.retVar+" : Option ("+t.retTy+") := some "+rv+"; "+t.retTuple(t.results))
 		}
 		if len(v.Results) == 0 {
-			return t.retTuple(t.results)
+			return t.final(t.retTuple(t.results))
+		}
+		if tc, ok := t.partialTailCall(v); ok {
+			return t.wrapGuards(t.takeGuards(), tc)
 		}
 		var vals []string
 		for _, r := range v.Results {
@@ -744,7 +944,7 @@ func (t *tr) stmts(list []ast.Stmt, k []ast.Stmt) string {
 			}
 			vals = append(vals, t.expr(r))
 		}
-		return t.retTuple(vals)
+		return t.wrapGuards(t.takeGuards(), t.final(t.retTuple(vals)))
 	case *ast.AssignStmt:
 		if len(v.Lhs) > 1 && len(v.Rhs) == 1 {
 			if _, isCall := v.Rhs[0].(*ast.CallExpr); isCall {
@@ -769,7 +969,23 @@ func (t *tr) stmts(list []ast.Stmt, k []ast.Stmt) string {
 					}
 					names = append(names, nm)
 				}
-				return "let (" + strings.Join(names, ", ") + ") := " + t.expr(v.Rhs[0]) + "; " + t.stmts(rest, k)
+				rhs := t.expr(v.Rhs[0])
+				g := t.takeGuards()
+				if t.calleeHasFuel(v.Rhs[0]) {
+					// results of a function with recursion fuel are bound by projections, not by a pattern:
+					// unfolding the caller must not force the evaluation of `callee loopFuel …`
+					tup := "res_" + strings.ReplaceAll(src(v.Rhs[0].(*ast.CallExpr).Fun), ".", "_")
+					out := "let " + tup + " := " + rhs + "; "
+					for i, nm := range names {
+						proj := strings.Repeat(".2", i)
+						if i < len(names)-1 {
+							proj += ".1"
+						}
+						out += "let " + nm + " := " + tup + proj + "; "
+					}
+					return t.wrapGuards(g, out+t.stmts(rest, k))
+				}
+				return t.wrapGuards(g, "let ("+strings.Join(names, ", ")+") := "+rhs+"; "+t.stmts(rest, k))
 			}
 		}
 		if len(v.Lhs) != len(v.Rhs) {
@@ -779,13 +995,29 @@ func (t *tr) stmts(list []ast.Stmt, k []ast.Stmt) string {
 		var names, vals []string
 		for i := range v.Lhs {
 			var name string
-			if id, ok := v.Lhs[i].(*ast.Ident); ok {
+			var idxs []ast.Expr
+			if ie, ok := v.Lhs[i].(*ast.IndexExpr); ok && isSliceTy(t.typeOf(ie.X)) && len(v.Lhs) == 1 {
+				// `b[i] = e`, `b[i][j] = e`: the slice variable b gets a new value (List.set), guarded by the bounds
+				base, ix := t.indexTarget(ie)
+				idxs = ix
+				if id, ok := base.(*ast.Ident); ok {
+					name = id.Name
+				} else if m, ok := t.selector(base); ok {
+					name = m
+					t.assigned[m] = true
+				} else {
+					return t.fail("assignment target %s", src(v.Lhs[i]))
+				}
+			} else if id, ok := v.Lhs[i].(*ast.Ident); ok {
 				name = id.Name
 			} else if m, ok := t.selector(v.Lhs[i]); ok {
 				name = m
 				t.assigned[m] = true
 			} else {
 				return t.fail("assignment target %s", src(v.Lhs[i]))
+			}
+			if _, isIdx := v.Rhs[i].(*ast.IndexExpr); isIdx && isSliceTy(t.typeOf(v.Rhs[i])) {
+				return t.fail("a row of a slice of slices is copied (aliasing)")
 			}
 			rhs := t.expr(v.Rhs[i])
 			if v.Tok != token.ASSIGN && v.Tok != token.DEFINE {
@@ -794,6 +1026,12 @@ func (t *tr) stmts(list []ast.Stmt, k []ast.Stmt) string {
 					token.QUO_ASSIGN: token.QUO, token.REM_ASSIGN: token.REM, token.SHL_ASSIGN: token.SHL, token.SHR_ASSIGN: token.SHR,
 					token.XOR_ASSIGN: token.XOR, token.AND_ASSIGN: token.AND, token.OR_ASSIGN: token.OR}[v.Tok]
 				rhs = t.expr(&ast.BinaryExpr{X: v.Lhs[i], Op: op, Y: v.Rhs[i]})
+			}
+			if idxs != nil {
+				if c, isCall := v.Rhs[i].(*ast.CallExpr); isSliceTy(t.typeOf(v.Lhs[i])) && !(isCall && src(c.Fun) == "make") {
+					return t.fail("a slice stored through an index must come from make (aliasing)")
+				}
+				rhs = t.sliceSet(name, t.types[name], idxs, rhs)
 			}
 			if v.Tok == token.DEFINE {
 				if c, isCall := v.Rhs[i].(*ast.CallExpr); isCall {
@@ -816,14 +1054,16 @@ func (t *tr) stmts(list []ast.Stmt, k []ast.Stmt) string {
 		}
 		if len(names) == 1 {
 			ann := ""
-			if ty, ok := t.types[names[0]]; ok && (ty == "uint" || ty == "int" || ty == "bool" || ty == "[2]uint" || ty == "error" || ty == "[]uint") {
+			if ty, ok := t.types[names[0]]; ok && (ty == "uint" || ty == "int" || ty == "bool" || ty == "[2]uint" || ty == "error" || isSliceTy(ty)) {
 				ann = " : " + leanType(ty)
 			} else if strings.Contains(names[0], "_") && t.extraSet[names[0]] {
 				ann = " : Nat"
 			}
-			return "let " + names[0] + ann + " := " + vals[0] + "; " + t.stmts(rest, k)
+			g := t.takeGuards()
+			return t.wrapGuards(g, "let "+names[0]+ann+" := "+vals[0]+"; "+t.stmts(rest, k))
 		}
-		return "let (" + strings.Join(names, ", ") + ") := (" + strings.Join(vals, ", ") + "); " + t.stmts(rest, k)
+		g := t.takeGuards()
+		return t.wrapGuards(g, "let ("+strings.Join(names, ", ")+") := ("+strings.Join(vals, ", ")+"); "+t.stmts(rest, k))
 	case *ast.IncDecStmt:
 		op := token.ADD
 		if v.Tok == token.DEC {
@@ -857,9 +1097,24 @@ func (t *tr) stmts(list []ast.Stmt, k []ast.Stmt) string {
 				val := "0"
 				if i < len(vs.Values) {
 					val = t.expr(vs.Values[i])
+				} else if strings.HasPrefix(ty, "*") {
+					// `var e *T`: a local object variable; the value word standing for the nil pointer is an
+					// uninterpreted parameter (a theorem about the translation holds whatever it is)
+					t.types[n.Name] = "uint"
+					t.localObj[n.Name] = true
+					val = "nil_" + strings.TrimPrefix(ty, "*")
+					if !t.extraSet[val] {
+						t.extraSet[val] = true
+						t.extra = append(t.extra, val)
+					}
+				} else if isSliceTy(ty) {
+					val = zeroOf(ty)
 				}
 				out += "let " + n.Name + " : " + leanType(ty) + " := " + val + "; "
 			}
+		}
+		if len(t.guards) > 0 {
+			return t.fail("declaration that may panic")
 		}
 		return out + t.stmts(rest, k)
 	case *ast.BlockStmt:
@@ -880,7 +1135,8 @@ func (t *tr) stmts(list []ast.Stmt, k []ast.Stmt) string {
 		case *ast.IfStmt:
 			elseS = t.stmts([]ast.Stmt{e}, cont(nil))
 		}
-		return pre + "(if " + t.cond(v.Cond) + " then " + thenS + " else " + elseS + ")"
+		condS := t.cond(v.Cond)
+		return t.wrapGuards(t.takeGuards(), pre+"(if "+condS+" then "+thenS+" else "+elseS+")")
 	case *ast.SwitchStmt:
 		if v.Init != nil {
 			return t.fail("switch with init")
@@ -928,14 +1184,25 @@ func (t *tr) stmts(list []ast.Stmt, k []ast.Stmt) string {
 				}
 				cs = append(cs, t.cond(e))
 			}
+			if len(t.guards) > 0 {
+				return t.fail("switch case that may panic")
+			}
 			return "(if " + strings.Join(cs, " ∨ ") + " then " + t.stmts(conds[i].Body, cont(nil)) + " else " + chain(i+1) + ")"
 		}
 		return chain(0)
 	case *ast.ForStmt:
-		return t.forLoop(v, rest, k)
+		return t.forLoop(v, "", rest, k)
+	case *ast.LabeledStmt:
+		if fs, ok := v.Stmt.(*ast.ForStmt); ok {
+			return t.forLoop(fs, v.Label.Name, rest, k)
+		}
+		return t.fail("labelled statement %s", v.Label.Name)
 	case *ast.RangeStmt:
 		// `for _, x := range []uint{e1, …, en} { body }` without break/continue: the elements are evaluated
 		// first (temporaries), then the body is unrolled once per element
+		if ds, ok := t.desugarRange(v); ok {
+			return t.stmts(ds, cont(nil))
+		}
 		cl, isLit := v.X.(*ast.CompositeLit)
 		val, isId := v.Value.(*ast.Ident)
 		if !isLit || !isId || src(cl.Type) != "[]uint" || v.Tok != token.DEFINE || (v.Key != nil && src(v.Key) != "_") {
@@ -961,8 +1228,12 @@ func (t *tr) stmts(list []ast.Stmt, k []ast.Stmt) string {
 		}
 		return t.stmts(append(pre, blocks...), cont(nil))
 	case *ast.BranchStmt:
-		if v.Tok == token.BREAK && t.brkVar != "" {
+		if v.Tok == token.BREAK && t.brkVar != "" && v.Label == nil {
 			return "let " + t.brkVar + " : Bool := true; " + t.retTuple(t.results)
+		}
+		if v.Tok == token.CONTINUE && t.canContinue && (v.Label == nil || v.Label.Name == t.loopLabel) {
+			// `continue`: the rest of the body is dropped, the post statement runs
+			return t.stmts(t.contPost, nil)
 		}
 		return t.fail("branch statement %s", src(v))
 	case *ast.ExprStmt:
@@ -991,6 +1262,7 @@ func assignedVars(t *tr, list []ast.Stmt) []string {
 					return true
 				}
 				for _, l := range a.Lhs {
+					l = stripIndex(l) // (`b[i] = e` assigns the slice variable b)
 					if id, ok := l.(*ast.Ident); ok {
 						set[id.Name] = true
 					} else if m, ok := mangle(l); ok {
@@ -998,9 +1270,10 @@ func assignedVars(t *tr, list []ast.Stmt) []string {
 					}
 				}
 			case *ast.IncDecStmt:
-				if id, ok := a.X.(*ast.Ident); ok {
+				x := stripIndex(a.X)
+				if id, ok := x.(*ast.Ident); ok {
 					set[id.Name] = true
-				} else if m, ok := mangle(a.X); ok {
+				} else if m, ok := mangle(x); ok {
 					set[m] = true
 				}
 			case *ast.ExprStmt:
@@ -1024,19 +1297,28 @@ func assignedVars(t *tr, list []ast.Stmt) []string {
 // for loops: `for init; cond; post { body }` without break/continue/return inside the body.
 // Emitted as   let rec-free:  loopN (fuel) (state) := match fuel with | 0 => state | f+1 => if cond then loopN f (body;post) else state
 // as a separate top-level definition (structural recursion on fuel); the call site passes `loopFuel`.
-func (t *tr) forLoop(v *ast.ForStmt, rest, k []ast.Stmt) string {
+func (t *tr) forLoop(v *ast.ForStmt, label string, rest, k []ast.Stmt) string {
+	if v.Init != nil {
+		// translate init, then the loop
+		var loop ast.Stmt = &ast.ForStmt{Cond: v.Cond, Post: v.Post, Body: v.Body}
+		if label != "" {
+			loop = &ast.LabeledStmt{Label: ident(label), Stmt: loop}
+		}
+		return t.stmts(append([]ast.Stmt{v.Init}, loop), append(append([]ast.Stmt{}, rest...), k...))
+	}
+	if v.Init == nil && label != "" {
+		// labelled `continue` from a loop nested directly in the body: see desugarLabelledContinue
+		v = &ast.ForStmt{Cond: v.Cond, Post: v.Post, Body: &ast.BlockStmt{List: t.desugarLabelledContinue(v.Body.List, label)}}
+	}
 	bad := false
 	hasBreak := false
-	hasRet := false
+	hasRet := t.partial // (a panic leaves the loop like a `return`)
 	var walk func(n ast.Node, depth int)
 	walk = func(n ast.Node, depth int) {
 		ast.Inspect(n, func(m ast.Node) bool {
 			switch b := m.(type) {
 			case *ast.ReturnStmt:
-				hasRet = true
-				if depth > 0 {
-					bad = true // return out of two loops at once
-				}
+				hasRet = true // (at any depth: an inner loop hands its return slot to the enclosing loop)
 			case *ast.FuncLit:
 				bad = true
 			case *ast.ForStmt:
@@ -1045,11 +1327,21 @@ func (t *tr) forLoop(v *ast.ForStmt, rest, k []ast.Stmt) string {
 				}
 				walk(b, depth+1)
 				return false
+			case *ast.RangeStmt:
+				if _, isLit := b.X.(*ast.CompositeLit); isLit {
+					return true // unrolled (its body may not contain break/continue)
+				}
+				walk(b.Body, depth+1)
+				return false
 			case *ast.BranchStmt:
 				if b.Tok == token.BREAK && b.Label == nil {
 					if depth == 0 {
 						hasBreak = true
 					}
+				} else if b.Tok == token.CONTINUE && depth == 0 && (b.Label == nil || b.Label.Name == label) {
+					// translated by dropping the continuation
+				} else if b.Tok == token.CONTINUE && depth > 0 && b.Label == nil {
+					// belongs to an inner loop
 				} else {
 					bad = true
 				}
@@ -1058,22 +1350,11 @@ func (t *tr) forLoop(v *ast.ForStmt, rest, k []ast.Stmt) string {
 		})
 	}
 	walk(v.Body, 0)
-	if hasRet && t.retVar != "" {
-		bad = true // a loop with `return` inside the body of another loop
-	}
 	if bad || (hasRet && t.retTy == "") {
 		return t.fail("loop with continue/labelled break/closure/return from a nested loop (or return without known result type)")
 	}
 
 	pre := ""
-	var initStmts []ast.Stmt
-	if v.Init != nil {
-		initStmts = []ast.Stmt{v.Init}
-	}
-	if len(initStmts) > 0 {
-		// translate init, then the loop
-		return t.stmts(append(initStmts, &ast.ForStmt{Cond: v.Cond, Post: v.Post, Body: v.Body}), append(append([]ast.Stmt{}, rest...), k...))
-	}
 	body := append([]ast.Stmt{}, v.Body.List...)
 	if v.Post != nil {
 		body = append(body, v.Post)
@@ -1132,7 +1413,18 @@ func (t *tr) forLoop(v *ast.ForStmt, rest, k []ast.Stmt) string {
 	sub.loops = nil
 	sub.brkVar = brk
 	sub.retVar = ret
+	sub.isLoopBody = true
+	sub.canContinue = true
+	sub.loopLabel = label
+	sub.contPost = nil
+	if v.Post != nil {
+		sub.contPost = []ast.Stmt{v.Post}
+	}
+	sub.guards = nil
 	bodyS := sub.stmts(body, nil)
+	if sub.needPartial {
+		t.needPartial = true
+	}
 	t.extra = sub.extra
 	t.loopN = sub.loopN
 	t.loops = append(t.loops, sub.loops...)
@@ -1142,6 +1434,9 @@ func (t *tr) forLoop(v *ast.ForStmt, rest, k []ast.Stmt) string {
 	condS := "True"
 	if v.Cond != nil {
 		condS = t.cond(v.Cond)
+		if len(t.guards) > 0 {
+			return t.fail("loop condition that may panic")
+		}
 	}
 	if hasBreak {
 		condS = "(" + condS + " ∧ " + brk + " = false)"
@@ -1160,9 +1455,22 @@ func (t *tr) forLoop(v *ast.ForStmt, rest, k []ast.Stmt) string {
 				if mm, ok := mangle(e); ok {
 					occurs[mm] = true
 				}
+			case *ast.ReturnStmt:
+				if len(e.Results) == 0 {
+					for _, r := range t.fnResults {
+						occurs[r] = true
+					}
+				}
 			case *ast.CallExpr:
 				if mm, ok := mangle(e); ok {
 					occurs[mm] = true
+				}
+				if sel, ok := e.Fun.(*ast.SelectorExpr); ok && len(e.Args) == 0 {
+					if inner, ok := sel.X.(*ast.CallExpr); ok {
+						if _, _, ok := t.localMethod(inner); ok {
+							occurs["method_"+sel.Sel.Name] = true
+						}
+					}
 				}
 				if mm, _, ok := t.localMethod(e); ok {
 					occurs[mm] = true
@@ -1205,7 +1513,7 @@ func (t *tr) forLoop(v *ast.ForStmt, rest, k []ast.Stmt) string {
 			continue
 		}
 		ty, hasTy := t.types[n]
-		if visible[n] && hasTy && (ty == "uint" || ty == "int" || ty == "bool" || ty == "[2]uint" || ty == "[]uint") {
+		if visible[n] && hasTy && (ty == "uint" || ty == "int" || ty == "bool" || ty == "[2]uint" || isSliceTy(ty) || (ty == "func" && t.extraTy[n] != "")) {
 			free = append(free, n)
 		}
 	}
@@ -1247,7 +1555,12 @@ func (t *tr) forLoop(v *ast.ForStmt, rest, k []ast.Stmt) string {
 	}
 	if hasRet {
 		init += "let " + ret + " : Option (" + t.retTy + ") := none; "
-		return pre + init + "let " + stTuple + " := " + call + "; (match " + ret + " with | some v => v | none => " + t.stmts(rest, k) + ")"
+		outer := "v"
+		if t.retVar != "" {
+			// inside the body of an enclosing loop: hand the value to its return slot and leave its body
+			outer = "let " + t.retVar + " : Option (" + t.retTy + ") := some v; " + t.retTuple(t.results)
+		}
+		return pre + init + "let " + stTuple + " := " + call + "; (match " + ret + " with | some v => " + outer + " | none => " + t.stmts(rest, k) + ")"
 	}
 	return pre + init + "let " + stTuple + " := " + call + "; " + t.stmts(rest, k)
 }
@@ -1426,6 +1739,11 @@ func (t *tr) callResultTypes(e ast.Expr) []string {
 	if !ok {
 		return nil
 	}
+	if sel, ok := c.Fun.(*ast.SelectorExpr); ok && isPkgName(rootIdent(sel)) {
+		if rts, ok := t.types["rets:"+src(sel)]; ok {
+			return strings.Split(rts, ",")
+		}
+	}
 	id, ok := c.Fun.(*ast.Ident)
 	if !ok {
 		return nil
@@ -1436,6 +1754,24 @@ func (t *tr) callResultTypes(e ast.Expr) []string {
 	return nil
 }
 
+// a call of an already translated function that has a recursion fuel (callers pass `loopFuel`)
+func (t *tr) calleeHasFuel(e ast.Expr) bool {
+	c, ok := e.(*ast.CallExpr)
+	if !ok {
+		return false
+	}
+	name := ""
+	switch f := c.Fun.(type) {
+	case *ast.Ident:
+		name = f.Name
+	case *ast.SelectorExpr:
+		if isPkgName(rootIdent(f)) {
+			name = src(f)
+		}
+	}
+	return name != "" && strings.HasSuffix(t.known[name], " loopFuel")
+}
+
 func callsItself(f *fn) bool {
 	recursive := false
 	if f.decl.Recv == nil {
@@ -1443,6 +1779,19 @@ func callsItself(f *fn) bool {
 			if c, ok := n.(*ast.CallExpr); ok {
 				if id, ok := c.Fun.(*ast.Ident); ok && id.Name == f.decl.Name.Name {
 					recursive = true
+				}
+			}
+			return true
+		})
+	} else if len(f.decl.Recv.List) > 0 && len(f.decl.Recv.List[0].Names) > 0 {
+		// a method calling itself on its own receiver
+		recv := f.decl.Recv.List[0].Names[0].Name
+		ast.Inspect(f.decl.Body, func(n ast.Node) bool {
+			if c, ok := n.(*ast.CallExpr); ok {
+				if sel, ok := c.Fun.(*ast.SelectorExpr); ok && sel.Sel.Name == f.decl.Name.Name {
+					if id, ok := sel.X.(*ast.Ident); ok && id.Name == recv {
+						recursive = true
+					}
 				}
 			}
 			return true
@@ -1492,9 +1841,20 @@ func newTr(f *fn, known map[string]string, retTypes map[string]string) *tr {
 	return t
 }
 
-// translateFn returns the Lean definitions (loops first) for one function
+// translateFn returns the Lean definitions (loops first) for one function.  A function in which a
+// construct that may panic is met (slice indexing, make with a signed length) is translated a second
+// time as a partial function: result type `Option …`, `none` = run-time panic.
 func translateFn(f *fn, known map[string]string, retTypes map[string]string) string {
+	out, need := translateFnMode(f, known, retTypes, false)
+	if need {
+		out, _ = translateFnMode(f, known, retTypes, true)
+	}
+	return out
+}
+
+func translateFnMode(f *fn, known map[string]string, retTypes map[string]string, partial bool) (string, bool) {
 	t := newTr(f, known, retTypes)
+	t.partial = partial
 	var ps, pTys []string
 	if f.decl.Recv != nil && len(f.decl.Recv.List) > 0 && len(f.decl.Recv.List[0].Names) > 0 {
 		t.recvName = f.decl.Recv.List[0].Names[0].Name
@@ -1507,7 +1867,7 @@ func translateFn(f *fn, known map[string]string, retTypes map[string]string) str
 			t.params[n.Name] = true
 			t.types[n.Name] = ty
 			pTys = append(pTys, leanType(ty))
-			if ty == "uint" || ty == "int" || ty == "bool" || ty == "[2]uint" || ty == "Order" || ty == "[]uint" {
+			if ty == "uint" || ty == "int" || ty == "bool" || ty == "[2]uint" || ty == "Order" || isSliceTy(ty) {
 				ps = append(ps, "("+n.Name+" : "+leanType(ty)+")")
 			} else {
 				t.types[n.Name] = "object"
@@ -1519,10 +1879,17 @@ func translateFn(f *fn, known map[string]string, retTypes map[string]string) str
 		switch a := n.(type) {
 		case *ast.AssignStmt:
 			for _, l := range a.Lhs {
+				l = stripIndex(l)
 				if _, isId := l.(*ast.Ident); !isId {
 					if m, ok := t.selector(l); ok {
 						t.assigned[m] = true
 					}
+				}
+			}
+		case *ast.IncDecStmt:
+			if _, isIdx := a.X.(*ast.IndexExpr); isIdx {
+				if m, ok := t.selector(stripIndex(a.X)); ok {
+					t.assigned[m] = true
 				}
 			}
 		}
@@ -1536,13 +1903,36 @@ func translateFn(f *fn, known map[string]string, retTypes map[string]string) str
 				n = 1
 			}
 			for i := 0; i < n; i++ {
-				rts = append(rts, leanType(src(fld.Type)))
+				rts = append(rts, t.leanTypeG(src(fld.Type)))
 			}
 			for _, nm := range fld.Names {
 				t.fnResults = append(t.fnResults, nm.Name)
 			}
 		}
 		t.retTy = strings.Join(rts, " × ")
+	} else if t.recvName != "" && len(t.assigned) > 0 {
+		// a method without results: the final values of the receiver fields it assigns
+		var rts []string
+		for _, a := range t.assignedSorted() {
+			rts = append(rts, leanType(t.types[a]))
+		}
+		t.fnResults = t.assignedSorted()
+		t.retTy = strings.Join(rts, " × ")
+	}
+	{
+		ps := map[string]bool{}
+		for _, fld := range f.decl.Type.Params.List {
+			for _, n := range fld.Names {
+				ps[n.Name] = true
+			}
+		}
+		if msg := aliasCheck(t.recvName, ps, f.decl.Body.List); msg != "" {
+			t.fail("%s", msg)
+		}
+	}
+	voidRetTy := t.retTy
+	if partial {
+		t.retTy = "Option (" + t.retTy + ")"
 	}
 	// a function that calls itself is translated with a recursion fuel as its first argument
 	recursive := callsItself(f)
@@ -1555,8 +1945,14 @@ func translateFn(f *fn, known map[string]string, retTypes map[string]string) str
 		}
 	}
 	body := t.funcBody(f.decl.Type, f.decl.Body)
-	if recursive && (len(t.extra) > 0 || len(ps) != len(pTys)) {
+	if recursive && ((len(t.extra) > 0 && t.recvName == "") || len(ps) != len(pTys)) {
 		t.fail("recursive function with object parameters")
+	}
+	if len(t.guards) > 0 {
+		t.fail("pending guards at the end of the body")
+	}
+	if t.needPartial && !partial {
+		return "", true
 	}
 	var extra []string
 	for _, e := range t.extra {
@@ -1569,7 +1965,7 @@ func translateFn(f *fn, known map[string]string, retTypes map[string]string) str
 	var b strings.Builder
 	if t.failed != "" {
 		fmt.Fprintf(&b, "/-- %s: NOT TRANSLATED (%s) -/\ndef %s : Unsupported := ⟨%s⟩\n\n", f.key, strings.ReplaceAll(t.failed, "-/", "- /"), f.leanName(), leanStr(t.failed))
-		return b.String()
+		return b.String(), false
 	}
 	for _, l := range t.loops {
 		b.WriteString(l)
@@ -1588,11 +1984,16 @@ func translateFn(f *fn, known map[string]string, retTypes map[string]string) str
 				if ty == "*Element" {
 					rts = append(rts, "Nat")
 				} else {
-					rts = append(rts, leanType(ty))
+					rts = append(rts, t.leanTypeG(ty))
 				}
 			}
 		}
 		retTy = " : " + strings.Join(rts, " × ")
+		if partial {
+			retTy = " : Option (" + strings.Join(rts, " × ") + ")"
+		}
+	} else if voidRetTy != "" {
+		retTy = " : " + t.retTy
 	}
 	if recursive {
 		var names, binders []string
@@ -1603,13 +2004,23 @@ func translateFn(f *fn, known map[string]string, retTypes map[string]string) str
 			}
 		}
 		wild := strings.TrimSuffix(strings.Repeat("_, ", len(names)), ", ")
-		fmt.Fprintf(&b, "/-- translated from %s (calls itself: the first argument bounds the recursion depth; `default` when it is used up) -/\ndef %s : Nat → %s\n  | 0, %s => default\n  | recFuel + 1, %s =>\n    let self : %s := (fun %s => %s recFuel %s);\n    %s\n\n",
-			f.key, f.leanName(), t.selfTy, wild, strings.Join(names, ", "), t.selfTy, strings.Join(binders, " "), f.leanName(),
+		// (a method: the receiver fields it reads are fixed parameters in front of the fuel)
+		fixed, fixedArgs := "", ""
+		if len(extra) > 0 {
+			fixed = " " + strings.Join(extra, " ")
+			fixedArgs = " " + strings.Join(t.extra, " ")
+		}
+		fmt.Fprintf(&b, "/-- translated from %s (calls itself: the first argument bounds the recursion depth; `default` when it is used up) -/\ndef %s%s : Nat → %s\n  | 0, %s => default\n  | recFuel + 1, %s =>\n    let self : %s := (fun %s => %s%s recFuel %s);\n    %s\n\n",
+			f.key, f.leanName(), fixed, t.selfTy, wild, strings.Join(names, ", "), t.selfTy, strings.Join(binders, " "), f.leanName(), fixedArgs,
 			"x_"+strings.Join(names, " x_"), body)
-		return b.String()
+		return b.String(), false
 	}
-	fmt.Fprintf(&b, "/-- translated from %s -/\ndef %s %s%s :=\n  %s\n\n", f.key, f.leanName(), strings.TrimSpace(strings.Join(append(extra, ps...), " ")), retTy, body)
-	return b.String()
+	doc := ""
+	if partial {
+		doc = " (may panic: `none` = run-time panic, index out of range or negative length)"
+	}
+	fmt.Fprintf(&b, "/-- translated from %s%s -/\ndef %s %s%s :=\n  %s\n\n", f.key, doc, f.leanName(), strings.TrimSpace(strings.Join(append(extra, ps...), " ")), retTy, body)
+	return b.String(), false
 }
 
 // functions translated, in dependency order
@@ -1620,6 +2031,8 @@ var translateList = []string{
 	"binfield.bitQuoRem", "binfield.bitProd", "binfield.Element.reduce",
 	"primefield.estimateMemory", "extfield.estimateMemory",
 	"auxmath.Factorize",
+	"auxmath.NewCombinIter", "auxmath.CombinIter.Current", "auxmath.CombinIter.Active", "auxmath.CombinIter.Next",
+	"primefield.table.lookup",
 }
 
 func writeCode(funcs map[string]*fn, path string) {
@@ -1641,6 +2054,14 @@ func writeCode(funcs map[string]*fn, path string) {
 		known[parts[len(parts)-1]] = f.leanName()
 		if callsItself(f) {
 			known[parts[len(parts)-1]] = f.leanName() + " loopFuel"
+		}
+		if len(parts) == 2 {
+			// package-qualified name, for calls from other packages
+			known[key] = known[parts[1]]
+			retTypes["rets:"+key] = strings.Join(resultTypes(f.decl.Type), ",")
+			if f.decl.Type.Results != nil && len(f.decl.Type.Results.List) == 1 {
+				retTypes[key] = src(f.decl.Type.Results.List[0].Type)
+			}
 		}
 		if f.decl.Type.Results != nil && len(f.decl.Type.Results.List) == 1 {
 			retTypes[parts[len(parts)-1]] = src(f.decl.Type.Results.List[0].Type)
@@ -1683,10 +2104,29 @@ var suffixList = []suffixSpec{
 	{"binfield.Element.Pow", "if a.IsZero()", "core"},
 	{"primefield.Element.Pow", "if a.IsZero()", "core"},
 	{"binfield.Element.Trace", "out := a.Copy()", "core"},
+	{"primefield.newTable", "t := make([][]uint", "core"},
+	{"primefield.Field.MultGenerator", "var e *Element", "core"},
 }
 
 func translateSuffix(f *fn, spec suffixSpec, known map[string]string, retTypes map[string]string) string {
+	out, need := translateSuffixMode(f, spec, known, retTypes, false)
+	if need {
+		out, _ = translateSuffixMode(f, spec, known, retTypes, true)
+	}
+	return out
+}
+
+func translateSuffixMode(f *fn, spec suffixSpec, known map[string]string, retTypes map[string]string, partial bool) (string, bool) {
 	t := newTr(f, known, retTypes)
+	t.partial = partial
+	if partial {
+		// result type of a suffix that may panic (objects are value words)
+		var rts []string
+		for _, rt := range resultTypes(f.decl.Type) {
+			rts = append(rts, t.leanTypeG(rt))
+		}
+		t.retTy = "Option (" + strings.Join(rts, " × ") + ")"
+	}
 	name := f.leanName() + "_" + spec.name
 	var ps []string
 	if f.decl.Recv != nil && len(f.decl.Recv.List) > 0 && len(f.decl.Recv.List[0].Names) > 0 {
@@ -1701,6 +2141,12 @@ func translateSuffix(f *fn, spec suffixSpec, known map[string]string, retTypes m
 			t.types[n.Name] = ty
 			if ty == "uint" || ty == "int" || ty == "bool" || ty == "[2]uint" {
 				ps = append(ps, "("+n.Name+" : "+leanType(ty)+")")
+			} else if lt, rt, ok := funcLeanType(fld.Type); ok {
+				// a parameter of function type over words
+				ps = append(ps, "("+n.Name+" : "+lt+")")
+				t.types[n.Name] = "func"
+				t.types["ret:"+n.Name] = rt
+				t.extraTy[n.Name] = lt
 			} else {
 				t.types[n.Name] = "object"
 			}
@@ -1715,10 +2161,19 @@ func translateSuffix(f *fn, spec suffixSpec, known map[string]string, retTypes m
 		}
 		ast.Inspect(s, func(n ast.Node) bool {
 			if a, ok := n.(*ast.AssignStmt); ok && a.Tok == token.DEFINE {
-				for _, l := range a.Lhs {
+				var rts []string
+				if len(a.Rhs) == 1 {
+					rts = t.callResultTypes(a.Rhs[0])
+				}
+				for i, l := range a.Lhs {
 					if id, ok := l.(*ast.Ident); ok && id.Name != "_" {
 						t.params[id.Name] = true
 						t.types[id.Name] = "object"
+						if len(rts) == len(a.Lhs) && isSliceTy(rts[i]) {
+							// a slice returned by a translated function in the skipped head: a parameter
+							t.types[id.Name] = rts[i]
+							ps = append(ps, "("+id.Name+" : "+leanType(rts[i])+")")
+						}
 					}
 				}
 			}
@@ -1728,13 +2183,25 @@ func translateSuffix(f *fn, spec suffixSpec, known map[string]string, retTypes m
 	var b strings.Builder
 	if start < 0 {
 		fmt.Fprintf(&b, "/-- %s: statement starting with %q not found -/\ndef %s : Unsupported := ⟨\"suffix start not found\"⟩\n\n", f.key, spec.from, name)
-		return b.String()
+		return b.String(), false
 	}
 	stmts := f.decl.Body.List[start:]
+	{
+		ps := map[string]bool{}
+		for _, fld := range f.decl.Type.Params.List {
+			for _, n := range fld.Names {
+				ps[n.Name] = true
+			}
+		}
+		if msg := aliasCheck(t.recvName, ps, stmts); msg != "" {
+			t.fail("%s", msg)
+		}
+	}
 	for _, s := range stmts {
 		ast.Inspect(s, func(n ast.Node) bool {
 			if a, ok := n.(*ast.AssignStmt); ok {
 				for _, l := range a.Lhs {
+					l = stripIndex(l)
 					if _, isId := l.(*ast.Ident); !isId {
 						if m, ok := t.selector(l); ok {
 							t.assigned[m] = true
@@ -1749,9 +2216,12 @@ func translateSuffix(f *fn, spec suffixSpec, known map[string]string, retTypes m
 	_ = saved
 	t.fn = &fn{pkg: f.pkg, decl: f.decl, key: f.key + "_" + spec.name}
 	body := t.stmts(stmts, nil)
+	if t.needPartial && !partial {
+		return "", true
+	}
 	if t.failed != "" {
 		fmt.Fprintf(&b, "/-- %s (suffix from %q): NOT TRANSLATED (%s) -/\ndef %s : Unsupported := ⟨%s⟩\n\n", f.key, spec.from, strings.ReplaceAll(t.failed, "-/", "- /"), name, leanStr(t.failed))
-		return b.String()
+		return b.String(), false
 	}
 	var extra []string
 	for _, e := range t.extra {
@@ -1765,7 +2235,12 @@ func translateSuffix(f *fn, spec suffixSpec, known map[string]string, retTypes m
 		b.WriteString(l)
 		b.WriteString("\n")
 	}
-	fmt.Fprintf(&b, "/-- translated from %s, statements from `%s` to the end of the body -/\ndef %s %s :=\n  %s\n\n", f.key, spec.from, name,
-		strings.TrimSpace(strings.Join(append(extra, ps...), " ")), body)
-	return b.String()
+	doc, rty := "", ""
+	if partial {
+		doc = " (may panic: `none` = run-time panic, index out of range or negative length)"
+		rty = " : " + t.retTy
+	}
+	fmt.Fprintf(&b, "/-- translated from %s, statements from `%s` to the end of the body%s -/\ndef %s %s%s :=\n  %s\n\n", f.key, spec.from, doc, name,
+		strings.TrimSpace(strings.Join(append(extra, ps...), " ")), rty, body)
+	return b.String(), false
 }
